@@ -9,7 +9,7 @@ from ..terms import show_atom
 
 ID = 'C12'
 LEVEL = 'model_checking'
-RULE = ('every string of length <= 3 [quick: length 3 only in 5 of the 17 positions] over the 17 characters {a Z 0 _ space \' " newline # % ( ) , . : é 五} '
+RULE = ('every string of length <= 3 [quick: length 3 only in 5 of the 17 positions] over the 18 characters {a Z 0 _ space \' " LF CR # % ( ) , . : é 五} '
         'plus 30 payloads (Python expressions, statements after a newline, engine/API names, dunder names, each carrying '
         'a unique marker) as a quoted atom in EVERY syntactic position (clause-head name, body-goal name, head argument, '
         'goal argument, functor name, list element, directive argument, both sides of =), and every hostile identifier as '
@@ -18,19 +18,19 @@ RULE = ('every string of length <= 3 [quick: length 3 only in 5 of the 17 positi
         'definitions only, no Attribute/Import/Lambda/Global/class/decorator/default, every name read is local or an '
         'engine API name, no API name is assigned; (iii) dynamic - the output is loaded with __builtins__ replaced by a '
         'recording mapping and call-counting wrappers around every context entry: loading performs no call and no '
-        'builtin lookup, running the defined predicates performs no builtin lookup. Plus hostile queries: every API '
+        'builtin lookup, running the defined predicates performs no builtin lookup; texts that contain a line separator or a payload are also compiled with ALL debug options on (debug stream + code, hostile file name) and judged by the same rules. Plus hostile queries: every API '
         'name, context key, dunder name and payload as predicate name x arity 0..3 x hostile arguments must yield '
         'nothing, call no API function through the context and touch no builtin. states = distinct (position, '
         'outcome) classes; transitions = compile/load/query operations; non-trivial = code was produced for a hostile string')
 ASSUMPTIONS = ['backslashes inside quoted atoms are unspecified and not generated (a quote is written as \\\')',
                'the structural rules constrain names and provenance, not the shape of the emitted control flow']
-CHARS = ['a', 'Z', '0', '_', ' ', "'", '"', '\n', '#', '%', '(', ')', ',', '.', ':', 'é', '五']
+CHARS = ['a', 'Z', '0', '_', ' ', "'", '"', '\n', '\r', '#', '%', '(', ')', ',', '.', ':', 'é', '五']
 MARK = 'zq7'
 PAYLOADS = [
     "zq7'+__import__('os').system('true')+'", 'zq7"+str(1)+"', "zq7\nimport os", "zq7():\n  pass\nimport sys\ndef zq7b",
     "zq7\n  raise ValueError", "ATOM_NIL", "query", "unify", "atom", "variable", "True", "None", "False", "__builtins__",
     "__import__", "__class__", "zq7.__class__", "zq7)]): pass #", "zq7'", 'zq7"', "zq7\\", "zq7 # comment", "zq7\r\nimport os",
-    "zq7;import os", "zq7=1", "lambda: zq7", "zq7_1", "zq7_n", "doBreak", "l1", "arg1", "zq7 import os", "yield zq7", "functor",
+    "zq7;import os", "zq7=1", "zq7\rimport os", "zq7\rdef zq7c():\r  yield False\rmakelist = variable\r#", "zq7\x0cimport os", "zq7\u2028import os", "zq7\x85import os", "lambda: zq7", "zq7_1", "zq7_n", "doBreak", "l1", "arg1", "zq7 import os", "yield zq7", "functor",
 ]
 INTERNAL_NAMES = ['$CUTIF', '$cutif', '$CUT', '$BREAK', '$VAR', 'cutIf1', 'doBreak', '$CUTIF_1', '$IF', '$label']
 INTERNAL_TEMPLATES = ['p :- %n(%s), q.', 'p :- q, %n(%s).', 'p :- %n(%s).', 'p :- ( a -> %n(%s) ; b ).', 'p :- %n(%s, b), q.',
@@ -104,11 +104,40 @@ def instrumented_engine():
     return yp, rec, calls
 
 
+class DebugCtx:
+    debug_filename = True
+    debug_parser = True
+    debug_generator = True
+    current_source_file = 'src\rimport os\n.prolog'
+    outf = None
+
+
+def compile_debug(text):
+    """the text a user gets with every debug option on: the debug stream followed by the code"""
+    import io
+
+    class Ctx(DebugCtx):
+        pass
+    Ctx.outf = io.StringIO()
+    code = impl.compiler.compile_prolog_from_string(text, Ctx)
+    return Ctx.outf.getvalue() + code
+
+
 def check_program(text):
+    res = check_program_1(text, False)
+    if res[0] == 'ok' and res[3][0] == 'loaded' and any(c in text for c in '\r\n\x0b\x0c\x85\u2028') or MARK in text:
+        if res[0] == 'ok':
+            res2 = check_program_1(text, True)
+            if res2[0] == 'violation':
+                return (res2[0], 'debug-options-on:' + res2[1], res2[2], res2[3])
+    return res
+
+
+def check_program_1(text, debug):
     """-> (status, sig, detail, outcome)"""
     r = rg.analyse(text)
     try:
-        out = impl.compile_text(text)
+        out = compile_debug(text) if debug else impl.compile_text(text)
     except Exception as e:  # noqa: BLE001
         return ('ok', None, None, ('rejected', type(e).__name__))
     if not r.accepted:
